@@ -9,6 +9,7 @@ mod model;
 mod props;
 mod sched;
 mod sock;
+mod vfs;
 mod wrap;
 
 use engine::Tier;
